@@ -463,13 +463,16 @@ def r4_close_before_skip(ctx):
             h = H(rel, clause)
             cell = f"closing cell indent {rel} clause-indent, line is clause={clause}"
             try:
-                sig = run_block([ifs[0]], h)
+                sig = run_block([st for st in w.body if not isinstance(st, ast.Assign)], h)     # the whole pass: `if stay: break` + close behind it as well
             except Unrecognised as e:
                 ctx.unrecognised(BR, "BranchingList.close_by_indent", cell, str(e))
                 continue
             got = "close" if h.act == "close" else ("stop" if sig == "break" else "?")
             want = "close" if (rel == "lt" or (rel == "eq" and not clause)) else "stop"
-            ctx.check(got == want, BR, "BranchingList.close_by_indent", cell, detail=got, expected=want)
+            if got == "?":
+                ctx.form(False, BR, "BranchingList.close_by_indent", cell, detail="neither closes nor stops in this cell (as far as the table reads the loop body)")
+            else:
+                ctx.check(got == want, BR, "BranchingList.close_by_indent", cell, detail=got, expected=want)
     # the clause indent is recorded when the clause is registered
     sc = ctx.fn(BR, "BranchingList.solve_case")
     ctx.form("indent=node.indent" in norm(sc).replace(" ", ""), BR, "BranchingList.solve_case", "every clause records the indentation of its keyword")
